@@ -100,6 +100,13 @@ def run_env(name, tier, seed):
         tb = traceback.format_exc()
         for p in generic.PROPS:
             kit.res[p].fail("generic harness raised on %s" % name, dict(env=name, op="harness-exception"), dict(trace=tb[-1500:]))
+    from harness import wrapkit
+    try:
+        wrapkit.analyze(kit)
+    except Exception:
+        tb = traceback.format_exc()
+        for p in wrapkit.PROPS:
+            kit.res[p].fail("wrapper harness raised on %s" % name, dict(env=name, op="harness-exception"), dict(trace=tb[-1500:]))
     modpath = os.path.join(core.VERIF, "harness", "envs", name + ".py")
     if os.path.exists(modpath):
         mod = importlib.import_module("harness.envs." + name)
